@@ -25,4 +25,7 @@ def run_call(c, backend=None, graph=False, arrays=None, timeout=30):
         return ("graph", str(r))
     if isinstance(r, tuple):
         return ("ok", [np.asarray(x) for x in r])
+    if not isinstance(r, (np.ndarray, np.generic)):
+        # several results are documented to come as a tuple, one result as a tensor
+        return ("exc", "WRONG_RESULT_CONTAINER:" + type(r).__name__, "", "the call returned a " + type(r).__name__)
     return ("ok", [np.asarray(r)])
